@@ -99,6 +99,7 @@ def run(idx, rep, tier):
     from . import c06
     c06.header_index_sequences(idx, rep, "R6")
     runtime_fresh(idx, rep, "R6")
+    printers_agree(idx, rep, "R5")
     # print-mode: no-default takes the stdout printer away and nothing else: every other printer still gets every entry (C15.R7)
     from . import c15
     c15.r7(idx, K.as_rule(rep, "R5"))
@@ -325,3 +326,34 @@ def runtime_fresh(idx, rep, rid):
         if second != {"valid": False, "headers": ["b"], "stopped": True}:
             bad = bad or f"after the verdict, the headers and the stopped flag changed within the line the second collection still shows {second} (a print() later on the same line prints stale $.csvpath values)"
     rep.check(bad is None and len(ps) >= 1, rid, f"{fi.file}::RuntimeDataCollector.collect reads the csvpath every time", bad or f"{len(ps)} paths", K.where(fi, fi.node))
+
+
+
+def printers_agree(idx, rep, rid):
+    """Printer.print: "prints string with a newline. same as print_to(None, string)" — for every printer class of the package, print(s) has
+    the effects of its own print_to with no name (None, or the class's default name): what the class (or a subclass that overrides only
+    print_to, like LogPrinter) does with an unnamed entry is one thing, whichever of the two entry points the csvpath used"""
+    classes = sorted(c for c in idx.subclasses("Printer") if c != "CsvPath" and len(idx.classes.get(c, [])) == 1)
+
+    def effects(cls, meth, pos):
+        fam = {c.name for c in idx.mro(cls)}
+        it = Interp(idx, types={"self": cls}, unknown_calls="residual", inline_all=fam, inline={f"{c}.{p_}" for c in fam for p_ in idx.cls(c).properties},
+                    handlers={"print": lambda i, c, r, a, k: i.record_call("out", (a[0] if a else None, "stderr" if "file" in k else "stdout"))})
+        st = {k: v for k, v in K.instance_store(idx, cls).items()}
+        ps = it.run_all(idx.method(cls, meth), args={"__pos__": list(pos)}, store=st)
+        out = []
+        for p in ps:
+            calls = [(kk, v) for k, kk, v in p.trace if k == "call" and not kk.startswith("self.print")]
+            fin = {k: v for k, v in p.final_store.items() if k.startswith("self.") and not k.startswith("self._logger")}
+            out.append((p.result[0], repr(calls), repr(sorted(fin.items(), key=lambda kv: kv[0]))))
+        return sorted(out)
+
+    bad = None
+    for cls in classes:
+        rep.analysed(idx.method(cls, "print"), idx.method(cls, "print_to"))
+        a = effects(cls, "print", ["S"])
+        alts = [effects(cls, "print_to", [nm, "S"]) for nm in (None, "default")]
+        if a not in alts:
+            bad = bad or (f"{cls}.print('S') (resolved to {idx.method(cls, 'print').qual}) does {a}; {cls}.print_to(None, 'S') (resolved to {idx.method(cls, 'print_to').qual}) does {alts[0]}: "
+                          "an unnamed print() reaches this printer differently from print_to — entries go to the wrong place or are counted differently")
+    rep.check(bad is None and len(classes) >= 3, rid, "csvpath/util/printer.py::print(s) is print_to(<no name>, s) for every printer", bad or f"{classes}", "csvpath/util/printer.py")
